@@ -18,6 +18,22 @@ def _t(x):
     return x
 
 
+_SRC = {}
+
+
+def src_line(where):
+    """Text of the /repo source line a definedness obligation was raised at."""
+    try:
+        rel, ln = where.rsplit(":", 1)
+        path = load.REPO_SRC + "/nuspacesim/" + rel
+        if path not in _SRC:
+            with open(path) as f:
+                _SRC[path] = f.read().splitlines()
+        return _SRC[path][int(ln) - 1]
+    except Exception:
+        return ""
+
+
 class Out:
     """What a harness run returns for one path."""
 
